@@ -7,6 +7,8 @@ import FwdVerif.Driver.Req
 import FwdVerif.Driver.Resp
 import FwdVerif.Driver.C17
 import FwdVerif.Driver.C20
+import FwdVerif.Driver.C03
+import FwdVerif.Driver.C08
 
 open FwdVerif
 
@@ -17,6 +19,8 @@ def dispatch (line : String) : String :=
   | "RESP" :: rest => Resp.handle rest
   | "C17" :: rest => C17.handle rest
   | "C20" :: rest => C20.handle rest
+  | "C03" :: rest => C03.handle rest
+  | "C08" :: rest => C08.handle rest
   | ["ping"] => "pong"
   | _ => "bad-op"
 
